@@ -16,9 +16,18 @@ Correspondence / oracle, per generated message:
     `NestedJsonRenderer().render(msg)`: the value nodes in document order are the flat items, each
     linked value re-appears (virtual) under exactly its owner, a 224255 value carries its 008023, a 225255
     value its 008024, an associated field its 031021 and sits on the element that follows it;
+  * marker values (223255 / 224255 / 225255 / 232255), every subset: the marker descriptor must carry the id, width,
+    scale and reference of the item its link names (225255: width + 1, reference -2^width);
   * difference statistics: when the template ends with 225255 markers the last fields of the (uncompressed,
     last) subset are cut out of the encoded bits with widths nbits(owner)+1 and the decoded value must be
     (raw - 2^nbits(owner)) / 10^scale(owner).
+
+Streams: (a) exhaustive bit patterns on one base, (b) random chains on the base families, (c) `varying-structure`:
+uncompressed messages of 2-4 subsets whose delayed replications in front of the operator have different factors per
+subset -- chosen so that the subsets record the SAME number of items (the operator sits at the same flat position,
+different elements precede it) -- with per-subset bit-maps and, for delayed bit-map replications, per-subset bit-map
+lengths.  Coverage of that class is measured from the implementation (hook on build_bitmapped_descriptors, counters
+`xsub-*` in the evidence) and never compared.
 """
 import json
 import os
@@ -36,14 +45,25 @@ META = dict(
          'exactly the back-referenced elements whose bit is 0, in order, and a bit-map whose length differs from the back '
          'references is refused; the back references are the last N plain-element items below the operator, in order with '
          'their positions; 225255 is coded with width+1 and reference -2^width; an associated field is recorded directly in '
-         'front of its owner.  The equality of the recorded links with the after-the-fact specification Spec.links (235000 / '
-         '236000 / 237000 / 237255 included) is NOT proved for all inputs: it is checked by correspondence — Spec.links is '
-         'evaluated by the compiled model on the implementation\'s own item list for every generated case (all 0/1 patterns '
-         'of bit-maps of length 1..8 per base template, random lengths up to 40, chains of 2-3 operators) and compared with '
-         'the implementation\'s bitmap_links and with the model walk; the hierarchical view is checked against the same links.',
-    technique='Lean 4 theorems (induction over the descriptor list / case analysis of the walk) + executable specification '
-              'evaluated on the implementation\'s output + checked model/implementation correspondence',
-    note='C07_links_eq_spec is stated (comment block in Props/C07.lean) but only its building blocks are proved; see notes/C07.md.',
+         'front of its owner.  For the WHOLE walk of any template (C07_walk_invariant, C07_links_sound_*_partial): every link '
+         'points from a value to an earlier item that is a plain element, and every entry of the back-reference / selection '
+         'registers names an item that is that element; for uncompressed messages the links (labels, values) of a subset are '
+         'those of decoding or encoding that subset alone, whatever the other subsets hold '
+         '(C07_links_independent_of_other_subsets, C07_links_of_subset_alone, C07_encoder_links_independent_of_other_subsets), '
+         'so that links = Spec.links for single walks lifts to messages (C07_links_eq_spec_lifts_to_message).  The equality of '
+         'the recorded links with the after-the-fact specification Spec.links (235000 / 236000 / 237000 / 237255 included) is '
+         'NOT proved for all inputs: it is checked by correspondence — Spec.links is evaluated by the compiled model on the '
+         'implementation\'s own item list of EVERY subset of every generated case (all 0/1 patterns of bit-maps of length 1..8 '
+         'per base template, random lengths up to 40, chains of 1-3 operators, and 2-4 uncompressed subsets whose delayed '
+         'replications in front of the operator differ but record the same number of items, with per-subset bit-maps and '
+         'bit-map lengths) and compared with the implementation\'s bitmap_links and with the model walk; every marker value '
+         'of every subset must carry the element, width, scale and reference of the item its link names; the hierarchical '
+         'view is checked against the same links.',
+    technique='Lean 4 theorems (induction over the descriptor list / case analysis of the walk / an invariant carried through '
+              'the mutual recursion of the walk) + executable specification evaluated on the implementation\'s output + '
+              'checked model/implementation correspondence',
+    note='C07_links_eq_spec is stated (comment block in Props/C07.lean) but only its building blocks, its soundness half '
+         '(Props/C07Walk.lean) and its reduction from messages to single walks (Props/C07Subsets.lean) are proved; see notes/C07.md.',
 )
 
 KINDS = (222, 223, 224, 225, 232)
